@@ -29,6 +29,9 @@ impl AbstractInstructionSet {
                 return self;
             }
             crate::verif_hooks::asmopt::observe(&self, data_section, level);
+            if let (OptLevel::Opt0, Some(skip)) = (level, crate::verif_hooks::asmopt::skip_list()) {
+                return crate::verif_hooks::asmopt::optimize0_skipping(self, data_section, &skip);
+            }
         }
         match level {
             // On debug builds do a single pass through the simple optimizations
